@@ -89,7 +89,8 @@ ExplainsOwn(e) ==
 ExplainsOwnImpl(e) ==
     /\ e.item_present /\ e.item_equal                        \* the user's impl is always re-emitted unchanged
     /\ IF ImplError(e.I) THEN e.nimpl = 0 /\ e.nerr = 1
-       ELSE e.nerr = 0 /\ e.nimpl = ImplCount(e.I)
+       ELSE /\ e.nerr = 0 /\ e.nimpl = ImplCount(e.I)
+            /\ ("bl" \in DOMAIN e.I => {e.forms[j] : j \in DOMAIN e.forms} = ImplForms(e.I) /\ Len(e.forms) = ImplCount(e.I))
 
 Explains(e) ==
     CASE e.ev = "strip"    -> ExplainsStrip(e)
